@@ -62,6 +62,19 @@ def cmd_replay(args):
     return 0
 
 
+def cmd_digest(args):
+    """Print the digest of each given unit (used by the in-check determinism slice)."""
+    from sim import selftest  # pylint: disable=import-outside-toplevel
+
+    core.bootstrap()
+    mod = load_check(args.property)
+    units = json.loads(sys.stdin.read())
+    if hasattr(mod, "prepare"):
+        mod.prepare("selftest")
+    print("UNITDIGESTS " + json.dumps([selftest.unit_digest(mod, u) for u in units]))
+    return 0
+
+
 def cmd_selftest(args):
     from sim import selftest  # pylint: disable=import-outside-toplevel
 
@@ -80,6 +93,9 @@ def main():
     r = sub.add_parser("replay")
     r.add_argument("path")
     r.set_defaults(fn=cmd_replay)
+    d = sub.add_parser("digest")
+    d.add_argument("property")
+    d.set_defaults(fn=cmd_digest)
     s = sub.add_parser("selftest")
     s.add_argument("--seeds", type=int, default=40)
     s.add_argument("--only", default=None)
